@@ -38,7 +38,7 @@ def check(pm: ProgramModel, ctx: Ctx) -> None:
         "parentheses) the model read back must equal the one written, constraints up to logical "
         "equivalence (truth table) or identical trees for non-logical ones; further cycles are "
         "fixpoints with byte-identical text; returned = written, UTF-8 on both sides.")
-    ctx.not_decided = ["interactions between dimensions beyond the combined abstract model",
+    ctx.not_decided = ["three-way and higher interactions between dimensions (every two-way combination is in the pairwise family)",
                        "the recogniser's conformance to the UVL language definition (dependency)"]
     mb = ModelBuilder(pm)
     cd = Codec(pm, ctx, W, R, "C01", diff_opts={"ctc_node_compare": equivalent_or_identical, "ctc_names": False},
